@@ -37,13 +37,24 @@ func (r *Run) FieldUnderLock(rule, rel, typ, field, lockField string, exempt map
 		base := Desc(a.Base)
 		want := strings.TrimPrefix(base, "&") + "." + lockField
 		n++
-		if heldIn(a.Fn, a.Instr, want) {
+		wantExclusive = a.Write
+		held := heldIn(a.Fn, a.Instr, want)
+		var callers bool
+		var why string
+		if !held {
+			callers, why = callersHold(r.W, a.Fn, base, lockField, 2)
+		}
+		wantExclusive = false
+		if held {
 			r.Ok(rule, construct, a.Instr.Pos(), "holds "+want)
 			continue
 		}
-		// caller-holds: base must be a parameter (or field path of one)
-		if ok, why := callersHold(r.W, a.Fn, base, lockField, 2); ok {
+		if callers {
 			r.Ok(rule, construct, a.Instr.Pos(), "caller holds: "+why)
+			continue
+		}
+		if a.Write && heldIn(a.Fn, a.Instr, want) {
+			r.Fail(rule, construct, a.Instr.Pos(), "write to "+typ+"."+field+" while "+want+" is held in shared (RLock) mode only", []string{want + " (exclusive)"}, LocksHeld(a.Fn)[a.Instr])
 			continue
 		}
 		r.Fail(rule, construct, a.Instr.Pos(), "access to "+typ+"."+field+" without holding "+want, []string{want}, LocksHeld(a.Fn)[a.Instr])
@@ -51,13 +62,26 @@ func (r *Run) FieldUnderLock(rule, rel, typ, field, lockField string, exempt map
 	return n
 }
 
+// wantExclusive is set while a write access is being judged: a lock held
+// through RLock does not count then.
+var wantExclusive bool
+
 func heldIn(fn *ssa.Function, in ssa.Instruction, want string) bool {
-	for _, h := range LocksHeld(fn)[in] {
+	held := LocksHeld(fn)[in]
+	found := false
+	for _, h := range held {
 		if h == want {
-			return true
+			found = true
 		}
 	}
-	return false
+	if found && wantExclusive {
+		for _, h := range held {
+			if h == want+sharedSuffix {
+				return false
+			}
+		}
+	}
+	return found
 }
 
 // callersHold: fn accesses <base>.<field> where base is described in terms of
